@@ -28,8 +28,12 @@ def bundle_dims(n_ring, n_duct=1, P=0.0065, D=0.0055, Dw=0.00095, wall=0.002, by
     ftf = []
     x = ftf0
     for i in range(n_duct):
-        ftf += [x, x + 2 * wall]
-        x = x + 2 * wall + 2 * byp
+        # every wall and every bypass gap has its own thickness: a counterexample that needs two gaps (or walls) to
+        # differ must be realisable with the constructed fixture
+        w_i = wall * (1 + 0.15 * i)
+        b_i = byp * (1 + 0.2 * i)
+        ftf += [x, x + 2 * w_i]
+        x = x + 2 * w_i + 2 * b_i
     return dict(P=P, D=D, Dw=Dw, ftf=ftf)
 
 
